@@ -154,7 +154,7 @@ Section DelPost.
   Lemma del_arr_post value hdr : post (shorter ks) (del_arr rec value hdr ks).
   Proof.
     unfold del_arr. cbv zeta. destruct ks as [|[i|n|n] r] eqn:Eks; try (apply post_ok; exact I).
-    destruct ((_ <? 0) || _)%Z; [apply post_ok; exact I|].
+    destruct (DKP_B_SKIP _ _); [apply post_ok; exact I|].
     apply (iterate_array_post _ _ _ _ (fun st => (length (snd st) <= length r)%nat) (shorter (KIndex i :: r))).
     - intros [[n es] kp] Hi. unfold del_arr_fin. apply post_ok. cbn [shorter snd fst length] in *. lia.
     - intros [[n es] kp] j p Hi Lp. cbn [snd] in Hi. unfold del_arr_step.
